@@ -39,6 +39,8 @@ def check_piece(piece_abs, k0x, k0y, k1x, k1y):
     if len(conds) != 1:
         return probs + ['slope is not a single two-way select: %s' % term_str(pv)[:200]]
     c = conds.pop()
+    from .boollogic import as_single_comparison
+    c = as_single_comparison(c) or c
     nf0 = NF()
     okc = c[0] == 'fcmp' and c[1] == 'lt' and c[3] == ('fc', EPS_BITS) and nf0(c[2]).equals(nf0(k1x) - nf0(k0x))
     okc = okc or (c[0] == 'fcmp' and c[1] == 'gt' and c[2] == ('fc', EPS_BITS) and nf0(c[3]).equals(nf0(k1x) - nf0(k0x)))
@@ -403,6 +405,9 @@ def check(cx):
                 ok_src = isinstance(b0, SeqSym) and b0.name == 'knots'
             except Unsupported:
                 ok_src = False
+        if not ok_src:
+            # an index pass: ι-th step looks at position 1 + ι (the recurrence below is stated over knots[ι + 1] itself)
+            ok_src = isinstance(base, Stream) and base.kind == 'range' and base.parts[0] == ('ic', 1) and base.parts[1] == ('len', K)
         if not ok_src:
             ok_src = pairs_source(it, st, seq.src, K)
         if not ok_src:
